@@ -63,7 +63,7 @@ impl GitScenario {
         if self.ignore_build {
             gitignore.push("build/".to_string());
         }
-        WorldSpec { targets, cmd_files, files: self.initial.clone(), sequences: vec![], max_retained_runs: 3, gitignore, git: true, lock_host: None, default_ports: 0, omit_max_retained: false, sha256_repo: self.sha256, clock_plan: self.clock_plan.clone() }
+        WorldSpec { targets, cmd_files, files: self.initial.clone(), sequences: vec![], max_retained_runs: 3, gitignore, git: true, lock_host: None, default_ports: 0, omit_max_retained: false, sha256_repo: self.sha256, clock_plan: self.clock_plan.clone(), script_wrappers: 0 }
     }
     pub fn initial_tree(&self) -> Tree {
         let mut t = Tree::new();
